@@ -1,2 +1,4 @@
 import WrglModel.Props.C02
-#print axioms Wrgl.C02_placeholder
+#print axioms Wrgl.C02_same_content_same_id
+#print axioms Wrgl.C02_injective
+#print axioms Wrgl.C02_no_change_detected
